@@ -111,8 +111,8 @@ def _nt_dims(d, S, prefix=""):
 # 1. index model (every entry, dtype, shape)
 # ------------------------------------------------------------------------------------------
 @st.composite
-def _index_case(draw):
-    d = draw(_dims())
+def _index_case(draw, nmax=5, budget=64):
+    d = draw(_dims(nmax=nmax, budget=budget))
     n = len(d)
     S, _ = draw(_ordered_subset(n))
     forms = ["list", "list"]
@@ -429,6 +429,8 @@ def nt_cvx(case):
 
 SUBCHECKS = [
     SubCheck("index_model", check_index_model, _index_case, nt_index, quick=24000, thorough=400000),
+    # larger systems (up to 9 subsystems, total dimension up to 512): the property is not bounded in size
+    SubCheck("index_model_large", check_index_model, lambda: _index_case(nmax=9, budget=512), nt_index, quick=400, thorough=8000),
     SubCheck("linear_trace", check_linear_trace, _linear_case, nt_linear, quick=7000, thorough=120000),
     SubCheck("product", check_product, _product_case, nt_product, quick=7000, thorough=120000),
     SubCheck("compose_order", check_compose, _compose_case, nt_compose, quick=7000, thorough=120000),
